@@ -17,23 +17,23 @@ ALL_TYPES = (["TypesGlobal"] + SMOOTH_FIXED + SMOOTH_V + SMOOTH_GCV + SPI + MK
              + [T + "Tinterpolate", T + "Lroo", T + "MeanGrp", T + "RollingSum", T + "Autocorr", T + "AutocorrTyx", T + "DoMean", T + "Ws2dwcvpU"])
 MODULES = {
     "C01": ["C01", "C01gen"],
-    "C02": ["C02", "GenNumGu", "GenNumPgu"] + SMOOTH_FIXED + SMOOTH_V[:3] + SMOOTH_GCV,
-    "C03": ["C03", "GenNumGu", "GenNumPgu"] + SMOOTH_FIXED,
-    "C04": ["C04", "GenNumOptv", "GenNumOptvp", "GenNumOptvpCore", "GenNumOptvplc", "GenNumOptvplcTyx"] + SMOOTH_V,
-    "C05": ["C05", "GenNumWcv", "GenNumWcvp"] + SMOOTH_GCV,
+    "C02": ["C02", "GenNumGu", "GenNumPgu", "GenGlueWhits"] + SMOOTH_FIXED + SMOOTH_V[:3] + SMOOTH_GCV,
+    "C03": ["C03", "GenNumGu", "GenNumPgu", "GenGlueWhits"] + SMOOTH_FIXED,
+    "C04": ["C04", "GenNumOptv", "GenNumOptvp", "GenNumOptvpCore", "GenNumOptvplc", "GenNumOptvplcTyx", "GenGlueWhitsvc"] + SMOOTH_V,
+    "C05": ["C05", "GenNumWcv", "GenNumWcvp", "GenGlueWhitswcv"] + SMOOTH_GCV,
     "C06": ["C06core", "C06"] + SMOOTH_FIXED + SMOOTH_V[:3] + SMOOTH_GCV,
     "C07": ["C07", "GenNumBrent", "GenNumGammafit", "GenNumGammastd", "GenGlueSpi", "GenGlueCalIndices"] + SPI,
     "C08": ["C08", "GenNumGammastd", "GenNumGammastdYxt", "SafeBrentq", "SafeGammafit", "SafeGammastd", "SafeGammastdGrp", "SafeGammastdYxt", "GenGlueSpi"] + SPI,
     "C09": ["C09", "GenNumGammastdGrp", "GenGlueCalIndices", "GenGlueSpi", "GenGlueLinspace", T + "GammastdGrp"],
-    "C10": ["C10", "GenKMk", "GenNumMkScore", "GenNumMkVar", "GenNumMkZ", "GenNumMkP", "GenNumMkSens", "GenNumMkTrend"] + MK,
-    "C11": ["C11"], "C12": ["C12", "GenNumOptvplcTyx", T + "Ws2doptvplcTyx"], "C13": ["C13"] + ALL_TYPES,
+    "C10": ["C10", "GenKMk", "GenNumMkScore", "GenNumMkVar", "GenNumMkZ", "GenNumMkP", "GenNumMkSens", "GenNumMkTrend", "GenGlueMktrend"] + MK,
+    "C11": ["C11", "GenGluePeriod", "GenGlueAnomalies"], "C12": ["C12", "GenNumOptvplcTyx", "GenGlueZonalMean", T + "Ws2doptvplcTyx"], "C13": ["C13"] + ALL_TYPES,
     "C14": ["C14", "SafeRollingSum", "SafeLroo", "SafeMeanGrp", "SafeDoMean", "SafeAutocorrSums", "SafeMkScoreCounts",
             "SafeWs2d", "SafeTinterpolate", "SafeWs2doptv", "SafeWs2dgu", "SafeWs2dpgu", "SafeWs2doptvpCore", "SafeWs2doptvp", "SafeWs2doptvplc",
             "SafeMkSens", "SafeMkVariance", "SafeGammastdGrp", "SafeGammastdYxt", "SafeWs2dwcv", "SafeWs2dwcvp"],
-    "C15": ["C15", "GenKAC", "GenNumACFloat", "GenNumACInt", "GenNumAC1d", T + "Autocorr", T + "AutocorrTyx"],
-    "C16": ["C16", "GenKDoMean", "GenKDoMeanB", T + "DoMean"],
-    "C17": ["C17", "C17round", "C17float", "GenKRS", "GenKRSround", "GenKMeanGrp", "GenKMeanGrpB", "GenGlueMeanGrp", T + "MeanGrp", T + "RollingSum"],
-    "C18": ["C18", "GenKLroo", T + "Lroo"], "C19": ["C19", "GenGlueIteragg"], "C20": ["C20", "GenNumTI", T + "Tinterpolate"],
+    "C15": ["C15", "GenKAC", "GenNumACFloat", "GenNumACInt", "GenNumAC1d", "GenNumACYxt", "GenNumACTyx", "GenGlueAutocorrAcc", T + "Autocorr", T + "AutocorrTyx"],
+    "C16": ["C16", "GenKDoMean", "GenKDoMeanB", "GenGlueZonalMean", T + "DoMean"],
+    "C17": ["C17", "C17round", "C17float", "GenKRS", "GenKRSround", "GenKMeanGrp", "GenKMeanGrpB", "GenGlueMeanGrp", "GenGlueRollingSumAcc", T + "MeanGrp", T + "RollingSum"],
+    "C18": ["C18", "GenKLroo", "GenGlueCroo", "GenGlueLrooAcc", T + "Lroo"], "C19": ["C19", "GenGlueIteragg"], "C20": ["C20", "GenNumTI", "GenGlueWhitint", T + "Tinterpolate"],
 }
 
 
